@@ -440,7 +440,15 @@ def run(chk: Check, eng: Engine) -> None:
             links = [n.id for n in mcfg.nodes if n.kind == "stmt" and isinstance(n.ast, ast.Assign) and isinstance(n.ast.value, ast.Name) and n.ast.value.id == var
                      and any(isinstance(t_, ast.Attribute) and t_.attr == "bounds_constraint" for t_ in n.ast.targets)]
             rets = [n.id for n in mcfg.nodes if n.kind == "stmt" and isinstance(n.ast, ast.Return)]
-            p_ = mcfg.find_path(start[0], rets, avoid=links, ignore=("exc-out", "raise-out")) if start else None
+            # after `var = Class(...)` a test `var is not None` cannot fail: its false edge is infeasible on paths from the construction
+            infeasible = set()
+            for n in mcfg.nodes:
+                if n.kind == "if":
+                    t_ = n.ast.test  # type: ignore[union-attr]
+                    if isinstance(t_, ast.Compare) and len(t_.ops) == 1 and isinstance(t_.left, ast.Name) and t_.left.id == var and isinstance(t_.comparators[0], ast.Constant) \
+                            and t_.comparators[0].value is None:
+                        infeasible.add((n.id, "false" if isinstance(t_.ops[0], ast.IsNot) else "true"))
+            p_ = mcfg.find_path(start[0], rets, avoid=links, ignore=("exc-out", "raise-out"), ignore_edges=infeasible) if start else None
             if links and p_ is None:
                 chk.ok("R19-i", m.fq, a.lineno, f"`{var} = RepetitionBoundsConstraint(...)` is stored in `<node>.bounds_constraint` on every path to the return")
             else:
